@@ -864,3 +864,82 @@ def m_io_read(it, S, t, callee, args):
     set_ty(P, "usize")
     S.add_le(P, ln, 0)
     return R
+
+
+# ----------------------------------------------------------------------------- vec![a, b, c]
+@model("alloc::boxed::box_assume_init_into_vec_unsafe")
+def m_vec_macro(it, S, t, callee, args):
+    # expansion of vec![..]: the array aggregate was written through the box's pointer; the vector
+    # has exactly the array's elements in source order
+    box = args[0]
+    base = box
+    while isinstance(base, tuple) and base[0] in ("upd", "proj"):
+        base = base[1]
+    found = None
+    for (root, proj), v in S.mem.items():
+        if root[0] == "P" and isinstance(v, tuple) and v[0] == "agg" and v[1] == "array":
+            x = root[1]
+            while isinstance(x, tuple) and x[0] in ("proj", "upd", "cast"):
+                x = x[1] if x[0] != "cast" else x[2]
+            if x == base:
+                found = v
+    if found is None:
+        return None
+    R = ("model", "vec!", found)
+    set_ty(R, tykey(Place(t["dest"]).ty))
+    return it.with_len(R, U(len(found[3])))
+
+
+# ----------------------------------------------------------------------------- callees trusted not to panic
+# (documented behaviour: no panic other than allocation failure / capacity overflow, which the
+# property's memory clause treats separately).  Anything reached from the analysed entry points
+# that is neither modelled above nor listed here makes the rule report "cannot analyse".
+TRUSTED_NOPANIC = {
+    "<&'a alloc::vec::Vec<T, A> as core::iter::traits::collect::IntoIterator>::into_iter": "iterator construction",
+    "<&'a std::collections::hash::map::HashMap<K, V, S, A> as core::iter::traits::collect::IntoIterator>::into_iter": "iterator construction",
+    "<alloc::vec::Vec<T, A> as core::iter::traits::collect::IntoIterator>::into_iter": "iterator construction",
+    "<alloc::vec::drain::Drain<'_, T, A> as core::iter::traits::iterator::Iterator>::next": "iterator step",
+    "<core::iter::adapters::enumerate::Enumerate<I> as core::iter::traits::iterator::Iterator>::next": "iterator step (count overflow needs 2^64 items)",
+    "<core::slice::iter::Iter<'a, T> as core::iter::traits::iterator::Iterator>::next": "iterator step",
+    "<std::collections::hash::map::Drain<'a, K, V, A> as core::iter::traits::iterator::Iterator>::next": "iterator step",
+    "<std::collections::hash::map::Iter<'a, K, V> as core::iter::traits::iterator::Iterator>::next": "iterator step",
+    "<alloc::vec::into_iter::IntoIter<T, A> as core::iter::traits::iterator::Iterator>::next": "iterator step",
+    "<alloc::string::String as core::ops::arith::Add<&str>>::add": "string concatenation",
+    "<hmac::Hmac<D> as crypto_mac::Mac>::finalize": "hmac crate (trusted)",
+    "<hmac::Hmac<D> as crypto_mac::Mac>::update": "hmac crate (trusted)",
+    "<hmac::Hmac<D> as crypto_mac::NewMac>::new_varkey": "hmac crate: returns a Result, accepts every key length",
+    "crypto_mac::Output::into_bytes": "hmac crate (trusted)",
+    "alloc::boxed::Box::new_uninit": "allocation (vec! expansion)",
+    "alloc::boxed::box_assume_init_into_vec_unsafe": "vec! expansion",
+    "alloc::fmt::format": "formatting of Display values",
+    "alloc::string::String::from_utf8": "returns a Result",
+    "byteorder::io::ReadBytesExt::read_f64": "returns an io::Result",
+    "byteorder::io::WriteBytesExt::write_f64": "returns an io::Result",
+    "byteorder::io::WriteBytesExt::write_u16": "returns an io::Result",
+    "byteorder::io::WriteBytesExt::write_u32": "returns an io::Result",
+    "byteorder::io::WriteBytesExt::write_u8": "returns an io::Result",
+    "core::cmp::impls::<impl core::cmp::Ord for u32>::cmp": "total order on u32",
+    "core::fmt::Arguments::new": "format_args! expansion",
+    "core::fmt::rt::Argument::new_display": "format_args! expansion",
+    "core::iter::traits::iterator::Iterator::collect": "collect into Vec",
+    "core::iter::traits::iterator::Iterator::enumerate": "adapter construction",
+    "core::option::Option::map": "calls the closure, which is analysed as its own body",
+    "core::option::Option::ok_or": "no panic",
+    "core::option::Option::unwrap_or_else": "calls the closure, which is analysed as its own body",
+    "core::option::Option::unwrap_or": "no panic",
+    "core::result::Result::map": "calls the closure / constructor, no panic",
+    "core::result::Result::map_err": "calls the closure, no panic",
+    "core::str::<impl str>::ends_with": "no panic",
+    "core::time::Duration::as_secs": "no panic",
+    "core::time::Duration::subsec_nanos": "no panic",
+    "rand::rng::Rng::gen": "rand crate (trusted; OS entropy failure is an environment fault)",
+    "rand::rngs::thread::thread_rng": "rand crate (trusted)",
+    "std::collections::hash::map::HashMap::drain": "no panic",
+    "std::collections::hash::map::HashMap::new": "no panic",
+    "std::collections::hash::map::HashMap::with_capacity": "allocation sized by a constant",
+    "std::io::Read::read_exact": "returns an io::Result (reader is a Cursor / caller supplied)",
+    "std::io::Write::write_all": "returns an io::Result (writer is a Vec / Cursor)",
+    "std::io::error::Error::new": "no panic",
+    "std::time::SystemTime::elapsed": "returns a Result",
+    "std::time::SystemTime::now": "no panic",
+}
